@@ -266,6 +266,10 @@ func (e *Engine) report(prop, tier string, seed int, results []*FuncResult, obls
 			}
 			continue
 		}
+		if o.Status == "error" {
+			rep.Broken = append(rep.Broken, "solver error on "+o.Name+": "+strings.SplitN(o.Model, "\n", 2)[0])
+			continue
+		}
 		rep.Failed = append(rep.Failed, o)
 	}
 	// obligations that were discharged on the unchanged tree but are not generated any more
